@@ -350,6 +350,32 @@ func init() {
 						}
 					}
 				}
+				// the first SETTINGS frame is applied by the handshake on its own: low point first there too
+				if hd := p.decl("(*Conn).doHandshake"); hd != nil {
+					r.fn("(*Conn).doHandshake")
+					okHs := false
+					ast.Inspect(hd.Body, func(n ast.Node) bool {
+						blk, ok := n.(*ast.BlockStmt)
+						if !ok {
+							return true
+						}
+						t := stmtTexts(p, blk.List)
+						lo, fi := -1, -1
+						for i, x := range t {
+							if x == "ifst.has(HeaderTableSize)&&st.tableSizeLow<size{c.enc.SetMaxTableSize(st.tableSizeLow)}" {
+								lo = i
+							}
+							if x == "c.enc.SetMaxTableSize(size)" {
+								fi = i
+							}
+						}
+						if lo >= 0 && fi > lo {
+							okHs = true
+						}
+						return true
+					})
+					r.check(okHs, "the handshake applies the low point of the first SETTINGS frame", p.pos(hd.Pos()), "if has(HEADER_TABLE_SIZE) && low < size { enc.Set(low) }; enc.Set(size)", "doHandshake no longer gives the encoder the lowest HEADER_TABLE_SIZE of the server's first SETTINGS frame before the final one: [0, 4096] there leaves the first request block without the update to 0 that a decoder which emptied its table is owed (RFC 7541 s4.2)")
+				}
 				r.check(swap && apply, "the client's write loop takes the mark and applies low, then latest", p.pos(fd.Pos()), "low := Swap(mark, sentinel); if low != sentinel || size != seen { if low != sentinel { enc.Set(low) }; seen = size; enc.Set(size) }", "the client's write loop no longer takes the low-water mark (resetting it), hands it to the encoder first and then moves encoder and marker to the latest size")
 			}
 			if fd := p.decl("NewConn"); fd != nil {
